@@ -11,11 +11,19 @@ META = {
         "size for Variable), raises MessageSerializationError exactly when unset without default filling, never rewrites bytes "
         "already in the buffer. The BufferWriter / SerializablePrimitive / Struct code underneath is the real code, inlined. "
         "UDPMessageDeserializer._parse_message_header (not zero-coded): flags, id, offset, acks in order, body with the ack trailer "
-        "snipped (contract shared with C02). "
+        "snipped (contract shared with C02). Block framing, both directions, as ghost call-log obligations on the real loops: "
+        "_serialize_block writes the count byte exactly for Variable blocks and equal to the number of instances (more than 255 is "
+        "rejected by the U8 write, not truncated), rejects a Multiple block of the wrong length, and writes every template variable of "
+        "every instance exactly once with that instance's value and fill flag; serialize (body built from blocks) looks every template "
+        "block up once by name, writes it iff present, writes nothing after an omitted block, visits all template blocks, zero-codes "
+        "iff flagged and then the whole built body, and wraps the body in the same header and ack trailer as the raw-body case; "
+        "_parse_message_body reads 1 / the template's number / the count byte instances of each block it reaches with data left, "
+        "creates the block list, parses every template variable of every instance once and stores it under its name, and stops for good "
+        "where the data ends. "
         "B (bounded, labelled): decode(encode(m)) == m over all 481 templates x block counts x per-type boundary and seeded "
         "values x flags x acks x extra; default-fill of every template; complete check of the (frequency, number) bijection; "
-        "pack/unpack pair law sampler. The template-walking loops of serialize/_serialize_block/parse_message_body (dict-of-"
-        "block-lists, dynamic packer tables) are outside the verifier's subset - decided only in the bounded tier."),
+        "pack/unpack pair law sampler. That the two framings are inverse of each other on whole messages (the round trip itself) "
+        "and _parse_var's text heuristics are decided only in the bounded tier."),
     "trusted_base": [
         "TemplateDataPacker.pack: assumed summary (pack of empty bytes is empty); per-type pair law sampled every run",
         "struct.Struct.pack/unpack: exact built-in model for integer formats",
@@ -31,6 +39,10 @@ def register(reg):
     reg.fns["hippolyzer.lib.base.message.udpdeserializer:UDPMessageDeserializer._parse_message_header@plain"].also.append(PID)
     from contracts import c01b_contracts
     c01b_contracts.register_p2(reg, PID)
+    from contracts import c01c_contracts
+    c01c_contracts.register_p3(reg, PID)
+    from contracts import c01d_contracts
+    c01d_contracts.register_p4(reg, PID)
 
 
 from contracts import c01_native
